@@ -43,7 +43,7 @@ def main():
         if not ok:
             print(r.stdout[-1500:])
             print(r.stderr[-800:])
-    shutil.rmtree(os.path.dirname(MUT), ignore_errors=True)
+    shutil.rmtree(os.path.dirname(MUT), ignore_errors=True) if not os.environ.get("MUT_KEEP") else None
     # leave the cache pointing at /repo again is not needed: facts are keyed by tree hash
     sys.exit(0 if all(r[1] for r in res) else 1)
 
